@@ -78,8 +78,8 @@ static void run_one(const unsigned char *s, int n, unsigned mask, int do_end){
       if (r >= FIRST_YIELD){
         out8('Y'); out8(r); out32(cur);
         if (++guard > 4 * (b - a) + 8){ out8('L'); term = 1; break; }
-        if (cur >= 0 && cur < b) continue;
-        break;
+        /* the documented driver loop re-invokes feed after EVERY yield with the pointer left as-is, also when the chunk is used up */
+        continue;
       }
       out8('T'); out8(r); out32(cur); term = 1; break;
     }
